@@ -301,3 +301,69 @@ func VxC17CatchUpThenFinalise() {
 		vx.Cover("several-commits-in-one-ethereum-block")
 	}
 }
+
+// C17-H7: the catch-up scan followed by a live Ethereum reorg. The backward scan over SEVERAL chunks buffers the
+// commits it finds newest chunk first and stops at the chunk holding a finalised one; the buffer it leaves behind
+// is then driven by the live stream like any other. Two commits A (already finalised) and B (not yet) lie in
+// different chunks; afterwards the live stream delivers a removal notice at a symbolic height (it withdraws B
+// exactly when it is at or below B's height), optionally a replacement commit above everything still standing,
+// and the finalised height advances to a symbolic later value. The recorded head must be the highest commit
+// that was delivered, not removed, and is finalised - never the withdrawn B.
+func VxC17CatchUpThenLiveReorg() {
+	vx.Bound("chunk size 10, latest Ethereum height symbolic in 20..29 (three chunks); commit A at a symbolic height in the oldest chunks and finalised, commit B at a symbolic height above the finalised height; live: one removal notice at a symbolic height, optional replacement commit at a symbolic height above every standing commit; finalised height advanced to a symbolic later value")
+	e := vxNewEnv(10)
+	latest := vx.U64("latest")
+	vx.Assume(latest >= 20 && latest <= 29)
+	e.p.latest = latest
+	hA, hB := vx.U64("A.l1"), vx.U64("B.l1")
+	f0 := vx.U64("finalised")
+	vx.Assume(hA <= f0 && f0 < hB && hB <= latest && hA < 10 && hB >= 10)
+	e.p.finalised = f0
+	e.p.events = []*StateUpdate{{L2BlockNumber: 25, L1RefHeight: hA}, {L2BlockNumber: 50, L1RefHeight: hB}}
+	vx.Assert(e.c.catchUpL1HeadUpdates(context.Background()) == nil, "catch-up-ok")
+	type standing struct{ l1, l2 uint64 }
+	alive := []standing{{hA, 25}, {hB, 50}}
+	// live stream
+	hR := vx.U64("removal.l1")
+	vx.Assume(hR > f0 && hR <= latest+5)
+	e.c.applyStateUpdate(&StateUpdate{L1RefHeight: hR, Removed: true})
+	var keep []standing
+	for _, a := range alive {
+		if a.l1 < hR {
+			keep = append(keep, a)
+		}
+	}
+	if len(keep) < len(alive) {
+		vx.Cover("the-unfinalised-commit-found-by-the-scan-is-withdrawn")
+	}
+	alive = keep
+	if vx.Choice("replacement", 2) == 1 {
+		hC := vx.U64("C.l1")
+		top := uint64(0)
+		for _, a := range alive {
+			if a.l1 > top {
+				top = a.l1
+			}
+		}
+		vx.Assume(hC > top && hC > f0 && hC <= latest+10)
+		e.c.applyStateUpdate(&StateUpdate{L2BlockNumber: 60, L1RefHeight: hC})
+		alive = append(alive, standing{hC, 60})
+	}
+	f1 := vx.U64("finalisedLater")
+	vx.Assume(f1 >= f0 && f1 <= latest+20)
+	e.p.finalised = f1
+	vx.Assert(e.c.setL1Head(context.Background()) == nil, "set-head-ok")
+	found := false
+	var bestL1, bestL2 uint64
+	for _, a := range alive {
+		if a.l1 <= f1 && (!found || a.l1 > bestL1) {
+			found, bestL1, bestL2 = true, a.l1, a.l2
+		}
+	}
+	got, has := e.lastHead()
+	vx.Assert(found, "commit-A-is-finalised") // by construction
+	vx.Assert(has, "head-recorded")
+	if has && found {
+		vx.Assert(got == bestL2, "head-is-the-highest-surviving-finalised-commit")
+	}
+}
